@@ -92,12 +92,14 @@ func newPage(offset int64) *page {
 		p.offset = offset
 		p.length = 0
 		p.ref()
+		if verifPagesOn { verifPageEvent("reuse", p) }
 	} else {
 		p = &page{
 			refc:   1,
 			offset: offset,
 			buffer: &[pageSize]byte{},
 		}
+		if verifPagesOn { verifPageEvent("alloc", p) }
 	}
 	return p
 }
@@ -410,11 +412,13 @@ type contiguousPages []*page
 func (pages contiguousPages) ref() {
 	for _, p := range pages {
 		p.ref()
+		if verifPagesOn { verifPageEvent("ref", p) }
 	}
 }
 
 func (pages contiguousPages) unref() {
 	for _, p := range pages {
+		if verifPagesOn { verifPageEvent("unref", p) }
 		p.unref()
 	}
 }
